@@ -495,6 +495,7 @@ def g_val(rng):
 
 
 def g_dict(rng, keys, lo=0, hi=3):
+    keys = list(dict.fromkeys(keys))      # (a pool built from two lists may name a key twice: a dict literal cannot)
     ks = rng.sample(keys, min(len(keys), rng.randint(lo, hi)))
     return [(k, g_val(rng)) for k in ks]
 
